@@ -161,6 +161,41 @@ def run_for_property(prop, res):
         raise AnalysisError('self-test variants did not behave as recorded: ' + '; '.join(f"{r['id']}: {r['detail']}" for r in failed[:5]))
 
 
+def _transform_job(args):
+    kind, prop, base_root = args
+    import subprocess
+    d = tempfile.mkdtemp(prefix='verif_benign_')
+    try:
+        env = dict(os.environ, BENIGN_SRC=str(base_root))
+        subprocess.run([sys.executable, str(pathlib.Path(HERE).parent / 'tools' / 'benign.py'), kind, d], check=True, env=env, capture_output=True)
+        try:
+            base = violations_of(prop, base_root)
+            got = violations_of(prop, d)
+        except AnalysisError as e:
+            return kind, f'AnalysisError {e}'
+        new = got - base
+        return kind, (sorted(new)[:3] if new else None)
+    finally:
+        shutil.rmtree(d, ignore_errors=True)
+
+
+def run_transforms_for_property(prop, res, jobs=8):
+    """Thorough tier: the property's rules must stay silent on the eight whole-package behaviour-preserving transforms (tools/benign.py T1..T8)."""
+    if any(o.status == 'violated' for o in res.obs):
+        known = {(k['rule'], k['site'], k['construct']) for k in report.load_known() if k.get('property') == prop and k.get('status') == 'known'}
+        if any(o.status == 'violated' and o.key() not in known for o in res.obs):
+            return
+    kinds = ['T1', 'T2', 'T3', 'T4', 'T5', 'T6', 'T7', 'T8']
+    base_root = str(repo_root())
+    with ProcessPoolExecutor(max_workers=jobs) as ex:
+        out = list(ex.map(_transform_job, [(k, prop, base_root) for k in kinds]))
+    bad = [(k, v) for k, v in out if v]
+    res.counters['benign_transforms_silent'] = len(out) - len(bad)
+    res.notes.append(f'behaviour-preserving whole-package transforms {kinds}: {len(out) - len(bad)} silent')
+    if bad:
+        raise AnalysisError('rules are not silent on a behaviour-preserving transform of the package: ' + '; '.join(f'{k}: {v}' for k, v in bad[:3]))
+
+
 def run_silent_everywhere(jobs=16, base_root=None):
     """Every behaviour-preserving variant against EVERY claimed property (not only the ones it was written for)."""
     base_root = str(base_root or repo_root())
